@@ -30,8 +30,8 @@
 EXTENDS Gates, Json, IOUtils
 CONSTANT NCASES
 Cases == JsonDeserialize(IOEnv.TRACE_FILE)
-VARIABLES tid, pos, V, T
-vars == <<tid, pos, V, T>>
+VARIABLES tid, pos, V, T, C
+vars == <<tid, pos, V, T, C>>
 Case == Cases[tid]
 
 \* ------------------------------------------------------------------ documented states
@@ -91,16 +91,20 @@ NormSq(t) == LET S[r \in 0..Len(t.e)] == IF r = 0 THEN Zero ELSE Bind2(S[r-1], A
 Normalised(t) == NormSq(t) = Int2C(4^t.k)
 
 \* ------------------------------------------------------------------ the event
-Init == /\ tid \in 1..NCASES /\ pos = 0 /\ V = <<>> /\ T = <<>>
+\* The batch file is read once per case (MkTarget copies what the later steps need into the state variable C): every reference
+\* to Cases costs time proportional to the size of the batch file.
+Init == /\ tid \in 1..NCASES /\ pos = 0 /\ V = <<>> /\ T = <<>> /\ C = <<>>
 
 MkTarget == /\ pos = 0
-            /\ T' = Norm(Documented(Case))
-            /\ V' = BasisCol(2^Case.n, 0)
+            /\ \E c \in {Case} :
+                 /\ T' = Norm(Documented(c))
+                 /\ V' = BasisCol(2^c.n, 0)
+                 /\ C' = [n |-> c.n, tw |-> c.tw, rel |-> c.rel, b |-> c.b]
             /\ pos' = 1 /\ UNCHANGED tid
 
-Step == /\ pos >= 1 /\ pos <= Len(Case.b)
-        /\ LET gt == Case.b[pos] IN V' = ApplyGate(V, GateM(gt), gt.w, Case.n)
-        /\ pos' = pos + 1 /\ UNCHANGED <<tid, T>>
+Step == /\ pos >= 1 /\ pos <= Len(C.b)
+        /\ \E gt \in {C.b[pos]} : V' = ApplyGate(V, GateM(gt), gt.w, C.n)
+        /\ pos' = pos + 1 /\ UNCHANGED <<tid, T, C>>
 
 \* overflow guard (32-bit integers): every coefficient stays below CMat's Bound.  (Not CMat.InBound: its MaxAbs recursion
 \* references S[j-1] twice and costs 2^H evaluations per ring element, 65536 at M = 5.)
@@ -115,12 +119,12 @@ Verdict(t, v, c) ==
   ELSE IF c.rel = "exact" THEN (IF EqExact(t, v) THEN "ok" ELSE IF EqUpToScalar(t, v) THEN "equal-only-up-to-phase" ELSE "not-equal")
   ELSE IF EqUpToScalar(t, v) THEN "ok" ELSE "not-equal-up-to-phase"
 
-Finish == /\ pos = Len(Case.b) + 1
-          /\ PrintT(<<"V", tid, Verdict(T, V, Case)>>)
+Finish == /\ pos >= 1 /\ pos = Len(C.b) + 1
+          /\ PrintT(<<"V", tid, Verdict(T, V, C)>>)
           /\ PrintT(ToJson([tid |-> tid, t |-> T]))
-          /\ pos' = pos + 1 /\ V' = <<>> /\ T' = <<>> /\ UNCHANGED tid
+          /\ pos' = -1 /\ V' = <<>> /\ T' = <<>> /\ C' = <<>> /\ UNCHANGED tid        \* pos = -1: the case is finished
 
 Next == MkTarget \/ Step \/ Finish
 \* model-level invariant: every documented state TLC builds is a unit vector (checked on every case)
-TargetsNormalised == (pos >= 1 /\ pos <= Len(Case.b) + 1) => Normalised(T)
+TargetsNormalised == (pos >= 1 /\ C # <<>>) => Normalised(T)
 =============================================================================
